@@ -215,6 +215,10 @@ def run_case(case):
                                            "extmod": mk.leaf, "call": mk.leaf()}[op[2]])
                     elif what == "nonhdl_add":
                         obj.add(5, name="a")
+                    elif what == "class_reserved":
+                        # a class body that binds a reserved name - to an HDL object or to anything else - is not a definition
+                        body = {"a": mk.make("signal"), op[2]: {"int": 3, "signals": h.Signals(2), "signal": mk.make("signal"), "dict": {}}[op[3]]}
+                        (h.module if is_module else h.bundle)(type("Reserved", (), body))
                     elif what == "delattr":
                         if modelmap:
                             delattr(obj, sorted(modelmap)[0])
@@ -402,6 +406,8 @@ def shard(idx, n, tier):
         neg = st.one_of(st.tuples(st.just("neg"), st.just("reserved"), st.sampled_from(banned)),
                         st.tuples(st.just("neg"), st.just("nonhdl"), st.sampled_from(["int", "str", "module", "list", "none", "extmod", "call"])),
                         st.tuples(st.just("neg"), st.just("nonhdl_add")),
+                        st.tuples(st.just("neg"), st.just("class_reserved"), st.sampled_from(banned if target == "module" else ["signals", "bundles"]),
+                                  st.sampled_from(["int", "signals", "signal", "dict"])),
                         st.tuples(st.just("neg"), st.sampled_from(["delattr", "subclass", "both_names", "no_name"])))
         return st.lists(st.one_of(pos, pos, pos, pos, neg), min_size=1, max_size=30).map(lambda l: [list(x) for x in l])
 
